@@ -28,20 +28,97 @@ class Obligation:
 
     def smt2(self):
         s = z3.Solver()
-        for h in self.hyps:
+        self.add_to(s)
+        return s.to_smt2()
+
+    def add_to(self, s):
+        hyps, goal = self.hyps, self.goal
+        if self.meta.get("drop_quantified") and self.expect == "valid":
+            # sound weakening: fewer hypotheses (quantified facts are dropped in the first, fast attempt)
+            hyps = [h for h in hyps if not _has_quantifier(h)]
+        if self.meta.get("abstract_mul") and self.expect == "valid":
+            # sound weakening: products of two non-numeral terms become an uninterpreted function, so the
+            # query is linear + UF (valid under UF multiplication => valid for real multiplication)
+            hyps = [abstract_mul(h) for h in hyps]
+            goal = abstract_mul(goal)
+        for h in hyps:
             s.add(h)
         if self.expect == "valid":
-            s.add(z3.Not(self.goal))
+            s.add(z3.Not(goal))
         else:
-            s.add(self.goal)
+            s.add(goal)
         # A-LIBM: axiom instances for every libm application occurring in the query
         from .special import libm_axioms
         for ax in libm_axioms(list(self.hyps) + [self.goal]):
+            if self.meta.get("abstract_mul") and self.expect == "valid":
+                ax = abstract_mul(ax)
+            if self.meta.get("drop_quantified") and self.expect == "valid" and _has_quantifier(ax):
+                continue
             s.add(ax)
         # witness terms: their model values are reported under the name pvc!w!<key>
         for k, t in (self.meta.get("witness") or {}).items():
             s.add(z3.Const("pvc!w!" + k, t.sort()) == t)
-        return s.to_smt2()
+
+
+def _has_quantifier(e, _memo={}):
+    k = e.get_id()
+    if k in _memo:
+        return _memo[k]
+    if z3.is_quantifier(e):
+        r = True
+    else:
+        r = any(_has_quantifier(c) for c in e.children())
+    _memo[k] = r
+    return r
+
+
+_UMUL_R = z3.Function("umul_r", z3.RealSort(), z3.RealSort(), z3.RealSort())
+_UMUL_I = z3.Function("umul_i", z3.IntSort(), z3.IntSort(), z3.IntSort())
+_UDIV_R = z3.Function("udiv_r", z3.RealSort(), z3.RealSort(), z3.RealSort())
+
+
+def abstract_mul(e):
+    cache = {}
+
+    def isnum(x):
+        return z3.is_int_value(x) or z3.is_rational_value(x)
+
+    def rec(x):
+        k = x.get_id()
+        if k in cache:
+            return cache[k]
+        if z3.is_quantifier(x):
+            body = rec(x.body())
+            vs = [z3.Const(x.var_name(i), x.var_sort(i)) for i in range(x.num_vars())]
+            # rebuild with de Bruijn substitution
+            inst = z3.substitute_vars(body, *reversed(vs))
+            pats = []
+            r = z3.ForAll(vs, inst) if x.is_forall() else z3.Exists(vs, inst)
+        elif z3.is_var(x) or not z3.is_app(x) or x.num_args() == 0:
+            r = x
+        else:
+            ch = [rec(c) for c in x.children()]
+            kk = x.decl().kind()
+            if kk == z3.Z3_OP_MUL:
+                nums = [c for c in ch if isnum(c)]
+                oth = [c for c in ch if not isnum(c)]
+                if len(oth) <= 1:
+                    r = x.decl()(*ch)
+                else:
+                    f = _UMUL_R if x.sort() == z3.RealSort() else _UMUL_I
+                    acc = oth[0]
+                    for c in oth[1:]:
+                        acc = f(acc, c)
+                    for n_ in nums:
+                        acc = n_ * acc
+                    r = acc
+            elif kk == z3.Z3_OP_DIV and not isnum(ch[1]):
+                r = _UDIV_R(ch[0], ch[1])
+            else:
+                r = x.decl()(*ch)
+        cache[k] = r
+        return r
+    return rec(e)
 
 
 class Sink:
@@ -76,7 +153,7 @@ class Contract:
                  ensures=None, modifies=(), loops=None, inline=False,
                  local_shapes=None, split=False, ghost=None, facts=None,
                  unroll_limit=200, use_contracts=(), scalars=None, notes="",
-                 tag="", fixed=None, after=None, hints=None, macros=None, gen=None, interp=None, lib="phonopy", auto_range=False, race=False):
+                 tag="", fixed=None, after=None, hints=None, macros=None, gen=None, interp=None, lib="phonopy", auto_range=False, race=False, abstract_mul=False, derived=None):
         self.file = file
         self.func = func
         self.shapes = shapes or {}
@@ -102,6 +179,8 @@ class Contract:
         self.lib = lib
         self.auto_range = auto_range   # symbolic for-loops without an entry get the invariant v >= init
         self.race = race               # generate OpenMP race-freedom obligations for parallel loops
+        self.abstract_mul = abstract_mul  # try the UF-multiplication weakening first for this function's VCs
+        self.derived = derived         # callable(V) -> [(label, formula)]: proved once from the requires, then usable as facts
 
     def instance(self, tag=None, **fixed):
         import copy
